@@ -180,6 +180,15 @@ CHECKS = {
         "its own serialisation.",
         "Field projection and the documented normalisations are in the harness (small); text contents sampled.",
     ),
+    "C12": (
+        "DESIGN.md 5/C12",
+        "TLC recomputes the framing facts (HyteraFraming.tla is the oracle: service byte, length field endianness, checksum, terminator, HRNP length / ones-complement checksum, HSTRP option chain) for PDUs of all 32 implemented opcodes, alone and nested",
+        "For every implemented opcode of RRS, LP, TMP and RCP the library builds PDUs from in-range fields, serialises, parses and re-serialises "
+        "them, nests them in HRNP and in HSTRP with 0..3 options; TLC recomputes service byte, length field (little endian for RCP), checksum, "
+        "terminator and reported length of the HDAP frame, the HRNP length and checksum, the HSTRP header and TLV option chain with continuation "
+        "bits, and judges byte identity of all round trips and field equality.",
+        "Payload layouts of the individual opcodes are covered by the round trips only (no per-opcode layout in the spec); field values sampled with boundaries.",
+    ),
 }
 
 NOT_YET = {}
